@@ -90,7 +90,10 @@ impl SwiftField for Field37H {
 
     fn to_swift_string(&self) -> String {
         let negative_indicator = if self.is_negative.is_some() { "N" } else { "" };
-        let rate_str = super::swift_utils::format_swift_amount_min_decimals(self.rate.abs(), 4);
+        let rate_str = super::swift_utils::fit_amount_length(
+            super::swift_utils::format_swift_amount_min_decimals(self.rate.abs(), 4),
+            12,
+        );
         format!(
             ":37H:{}{}{}",
             self.rate_indicator, negative_indicator, rate_str
